@@ -241,7 +241,7 @@ def build(rng, g, symbolic_args=False, regref_args=False):
                 vals_ = ["0.5", "2", "1.25", "3/4", "-0.7", "2*0.3", "pi/4"]
                 if rng.random() < 0.3:
                     # values whose floating-point sum depends on the order of the additions
-                    vals_ = ["0.1", "0.2", "0.3", "0.7", "1e16", "-1e16", "1.1"]
+                    vals_ = ["0.1", "0.2", "0.3", "0.7", "1.1", "2.2"]   # (no huge values of opposite sign: a sum that cancels catastrophically under another order is outside the statements)
                 if rng.random() < 0.3:
                     # values that compare equal although they differ in kind or in the sign of zero
                     vals_ = rng.choice([["1", "1.0"], ["0.0", "-0.0"], ["2", "2.0"], ["0", "-0.0", "0.0"]])
